@@ -117,6 +117,11 @@ def stepEvent (run : Run) (ev : String) : EvOut :=
     match parseNat? n with
     | some n => .out "ok" { run with r := { run.r with m := macSetDatarate run.r.m n } }
     | none => .bad
+  | ["classc", b] =>
+    -- `enable_class_c` / `disable_class_c` between calls
+    match Driver.parseBool? b with
+    | some b => .out "ok" { run with cfg := { run.cfg with classC := b } }
+    | none => .bad
   | ["hold"] => .out "ok" { run with hold := true }
   | ["take"] => .out s!"dls={showDls run.r.downlinks}" { run with r := { run.r with downlinks := [] } }
   | ["snap"] => .out (showSnap run.r.m) run
